@@ -4,6 +4,7 @@ CONSTANTS
   LinkStyle = "fixed"
   MaxTok = 3
   Part = "text"
+  ListStyle = "versioned"
   Chains = FALSE
 INVARIANT TextRefinesP
 CHECK_DEADLOCK FALSE
